@@ -108,6 +108,7 @@ func runHost(h *common.History) {
 		panic(err)
 	}
 	socks := map[int]closer{}
+	stale := map[int]closer{} // handles that were closed already
 	ids := map[*vnet.UDPConn]int{}
 	next := 0
 	h.Obs = nil
@@ -160,6 +161,11 @@ func runHost(h *common.History) {
 			if s, ok := socks[id]; ok {
 				_ = s.Close()
 				delete(socks, id)
+				stale[id] = s
+			} else if s, ok := stale[id]; ok {
+				// closing a handle again must not touch whatever socket holds that address now
+				_ = s.Close()
+				h.Tags = append(h.Tags, "double_close")
 			}
 			h.Obs = append(h.Obs, nil)
 		case "3":
